@@ -97,6 +97,7 @@ def col_variants(rd):
 
 # ------------------------------------------------------------------------------------------------ C01.index
 def index_cases(tier, seed):
+    yield from root_cases(tier)
     for rd in dims_alphabet(tier):
         n = len(rd)
         R = ti.prod(rd)
@@ -131,6 +132,27 @@ def index_cases(tier, seed):
                                 for ent in ents:
                                     yield {"kind": "mat", "rdims": rd, "cdims": cd, "perm": list(perm), "row_only": row_only,
                                            "inv": inv, "dimform": dimform, "storage": storage, "entries": ent}
+
+
+def root_cases(tier):
+    """Omitted dim on n equal subsystems of local dimension d for every (d, n) with d^n <= 4096 (thorough 20000): the local dimension has
+    to be recovered from the total size, and the floating-point n-th root of d^n is not always d (64 ** (1/3) = 3.9999999999999996).
+    Added after seeded change C01-8, which truncated that root."""
+    cap = 4096 if tier == "quick" else 20000
+    for n in range(2, 13):
+        for d in range(2, 65):
+            if d ** n > cap or (d <= 3 and n <= 3):
+                continue
+            rd = [d] * n
+            perms = {tuple(range(1, n)) + (0,), tuple(range(n - 1, -1, -1)), (1, 0) + tuple(range(2, n))}
+            for perm in sorted(perms):
+                for kind in ("vec1d", "col"):
+                    yield {"kind": kind, "rdims": rd, "cdims": None, "perm": list(perm), "row_only": False, "inv": False,
+                           "dimform": "omitted", "storage": "dense", "entries": "int"}
+                if d ** n <= 128:
+                    for storage in ("dense", "csr"):
+                        yield {"kind": "mat", "rdims": rd, "cdims": rd, "perm": list(perm), "row_only": False, "inv": True,
+                               "dimform": "omitted", "storage": storage, "entries": "int"}
 
 
 def make_dim_arg(case):
